@@ -181,6 +181,27 @@ func caseKey(fields []string) string {
 
 // compareWithModel runs the model on all cases and records disagreements.
 func compareWithModel(env *Env, res *Result, cases []CorrCase) {
+	compareWithModelX(env, res, cases, false)
+}
+
+// compareWithModelAlt: the model may answer "ORDER-DEPENDENT\t<a>\t<b>..." (the set of
+// outcomes over the iteration orders of a Go map); the implementation must be in that set.
+func compareWithModelAlt(env *Env, res *Result, cases []CorrCase) {
+	compareWithModelX(env, res, cases, true)
+}
+
+func inAlternatives(model string, impl string) bool {
+	rest := strings.TrimPrefix(model, "ORDER-DEPENDENT\t")
+	// alternatives are separated by "\x1f" when present, else by scanning prefixes
+	for _, alt := range strings.Split(rest, "\x1f") {
+		if alt == impl {
+			return true
+		}
+	}
+	return false
+}
+
+func compareWithModelX(env *Env, res *Result, cases []CorrCase, alt bool) {
 	fields := make([][]string, len(cases))
 	for i, c := range cases {
 		fields[i] = c.Fields
@@ -202,6 +223,10 @@ func compareWithModel(env *Env, res *Result, cases []CorrCase) {
 			}
 		} else {
 			res.count("class:trivial")
+		}
+		if alt && strings.HasPrefix(outs[i], "ORDER-DEPENDENT\t") && inAlternatives(outs[i], c.Impl) {
+			res.count("order-dependent-accepted")
+			continue
 		}
 		if outs[i] != c.Impl {
 			res.MismatchCount++
